@@ -37,10 +37,16 @@ valid if the number modulo 97 is 1. As such it has two check digits.
 from stdnum.exceptions import *
 
 
+# the numeric values of the characters that can be used in numbers
+_values = dict(
+    (x, str(int(x, 36)))
+    for x in '0123456789ABCDEFGHIJKLMNOPQRSTUVWXYZabcdefghijklmnopqrstuvwxyz')
+
+
 def _to_base10(number):
     """Prepare the number to its base10 representation."""
     return ''.join(
-        str(int(x, 36)) for x in number)
+        _values[x] for x in number)
 
 
 def checksum(number):
